@@ -170,6 +170,18 @@ def apply_event(ev, executors):
         except Exception:
             pass
         return ("ok",)
+    if kind == "wrfail":
+        # a translation whose files cannot be written: the client-side passes succeed, the write hits an I/O error
+        # (the output directory does not exist)
+        from pathlib import Path
+        b, exe = executors[ev[1]]
+        text = MENUS[b][ev[2]][0]
+        try:
+            a2 = exe.apply_ast_transformations(parse_query(text))
+            exe.write_cpp_files(a2, Path("/nonexistent-vm-dir/never/there"))
+        except Exception:
+            pass
+        return ("ok",)
     if kind in ("tr", "again"):
         b, exe = executors[ev[1]]
         text = MENUS[b][ev[2]][0]
@@ -204,6 +216,7 @@ def enabled_events(history, max_exec):
         evs += [("tr", i, q) for q in MENUS[b]]
         evs += [("again", i, q) for (hb, q) in handed if hb == b]
         evs += [("apply", i, q) for q in (APPLY_ONLY if os.environ.get("VERIF_C07_TIER") == "thorough" else APPLY_ONLY[:3]) if q in MENUS[b]]
+        evs += [("wrfail", i, q) for q in (APPLY_ONLY if os.environ.get("VERIF_C07_TIER") == "thorough" else APPLY_ONLY[:2]) if q in MENUS[b]]
     return evs
 
 
@@ -356,7 +369,7 @@ def main(tier="quick"):
             return candidates(base, bk, ev, hist)
         mh = minimise(h, ev, want, max_exec, acceptable)
         b = [e[1] for e in mh if e[0] == "new"][ev_index(mh, h, ev)]
-        culprits = sorted({e[2] if e[0] == "tr" else (f"apply:{e[2]}" if e[0] == "apply" else e[0]) for e in mh if e[0] != "new"} | ({"same-object-again"} if ev[0] == "again" else set()))
+        culprits = sorted({e[2] if e[0] == "tr" else (f"apply:{e[2]}" if e[0] == "apply" else (f"wrfail:{e[2]}" if e[0] == "wrfail" else e[0])) for e in mh if e[0] != "new"} | ({"same-object-again"} if ev[0] == "again" else set()))
         feat = {"culprits": culprits, "probe": ev[2], "probe_backend": b,
                 "executor_backends": sorted({e[1] for e in mh if e[0] == "new"}),
                 "n_executors": sum(1 for e in mh if e[0] == "new"),
@@ -434,7 +447,7 @@ def ext_state(h, i, b):
     if last is None:
         return "none"
     for e in h[last + 1:]:
-        if e[0] in ("tr", "again") and e[1] == i:
+        if e[0] in ("tr", "again", "wrfail") and e[1] == i:
             return "unknown"
         if e[0] == "apply" and e[1] == i and MENUS[b][e[2]][1] is False:
             return "unknown"       # a query that cannot be translated may already fail (and reset) while it is applied
